@@ -144,6 +144,9 @@ type Exec struct {
 	cons        map[string]*consPoint // consistency (anti-vacuity) points, by name
 	consOrder   []string
 	assertHit   map[string]bool
+	inlineS     float64
+	consWG      sync.WaitGroup
+	consMu      sync.Mutex
 }
 
 // consPoint is a point of the symbolic execution where a contract's assumptions were added to a path: after a
@@ -160,7 +163,13 @@ type consPoint struct {
 	visits int
 }
 
-func (x *Exec) solveLines(lines []string) string {
+func (x *Exec) solveLines(lines []string) string { return x.solveLinesWith(lines, 1, 3) }
+
+// refutable: can the e-matching configuration refute the path within a short limit? (it never answers sat; unknown
+// comes back quickly, so the common case of a consistent path costs milliseconds)
+func (x *Exec) refutable(lines []string) bool { return x.solveLinesWith(lines, 0, 2) == "unsat" }
+
+func (x *Exec) solveLinesWith(lines []string, cfg int, limit int) string {
 	f, err := os.CreateTemp(scratchBase(), "cons*.smt2")
 	if err != nil {
 		return "unknown"
@@ -168,8 +177,9 @@ func (x *Exec) solveLines(lines []string) string {
 	defer os.Remove(f.Name())
 	f.WriteString(x.header() + strings.Join(lines, "\n") + "\n(check-sat)\n")
 	f.Close()
-	r, _, _ := runSolver(solvers[0], f.Name(), 3)
+	r, _, el := runSolver(solvers[cfg], f.Name(), limit)
 	x.pruned++
+	x.inlineS += el
 	return r
 }
 
@@ -186,54 +196,104 @@ func (x *Exec) consPointOf(name, src string) *consPoint {
 	return cp
 }
 
-// consistencyAfter checks, once per point until it succeeds, that the assumptions added since st.lines[:before] kept
-// a satisfiable path satisfiable.
+// consistencyAfter checks (asynchronously; the exploration does not depend on the answer), for the first visits of a
+// point, that the assumptions added since st.lines[:before] kept a satisfiable path satisfiable.
 func (x *Exec) consistencyAfter(st *State, name, src string, before int) {
 	if x.frameMode || len(st.stack) == 0 {
 		return
 	}
 	cp := x.consPointOf(name, src)
-	if cp.ok || cp.bad != "" || cp.tries >= 12 {
+	if cp.tries >= 4 {
 		return
 	}
 	cp.tries++
-	if x.solveLines(st.lines) != "unsat" {
-		cp.ok = true
-		cp.okScr = strings.Join(st.lines, "\n") + "\n"
-		return
-	}
-	if x.solveLines(st.lines[:before]) == "sat" {
-		cp.bad = strings.Join(st.lines, "\n") + "\n"
-	}
+	header := x.header()
+	after := strings.Join(st.lines, "\n") + "\n"
+	pre := strings.Join(st.lines[:before], "\n") + "\n"
+	x.consWG.Add(1)
+	go func() {
+		defer x.consWG.Done()
+		consSem <- struct{}{}
+		defer func() { <-consSem }()
+		x.consMu.Lock()
+		done := cp.ok || cp.bad != ""
+		x.consMu.Unlock()
+		if done {
+			return
+		}
+		if solveText(header+after, 0, 2) != "unsat" {
+			x.consMu.Lock()
+			cp.ok, cp.okScr = true, after
+			x.consMu.Unlock()
+			return
+		}
+		if solveText(header+pre, 1, 3) == "sat" {
+			x.consMu.Lock()
+			cp.bad = after
+			x.consMu.Unlock()
+		}
+	}()
 }
 
-// reachPoint records that a return or a back edge was reached, and whether on a satisfiable path.
+var consSem = make(chan struct{}, 16)
+
+// solveText runs one solver configuration on a script text (check-sat appended).
+func solveText(script string, cfg, limit int) string {
+	f, err := os.CreateTemp(scratchBase(), "cons*.smt2")
+	if err != nil {
+		return "unknown"
+	}
+	defer os.Remove(f.Name())
+	f.WriteString(script + "(check-sat)\n")
+	f.Close()
+	r, _, _ := runSolver(solvers[cfg], f.Name(), limit)
+	return r
+}
+
+// reachPoint records that a return or a back edge was reached, and whether on a path the solver cannot refute.
 func (x *Exec) reachPoint(st *State, name, src string) {
 	if x.frameMode {
 		return
 	}
 	cp := x.consPointOf(name, src)
 	cp.visits++
-	if cp.ok || cp.tries >= 40 {
+	if cp.tries >= 12 {
 		return
 	}
 	cp.tries++
-	if x.solveLines(st.lines) != "unsat" {
-		cp.ok = true
-		cp.okScr = strings.Join(st.lines, "\n") + "\n"
-		return
-	}
-	cp.bad = strings.Join(st.lines, "\n") + "\n"
+	header := x.header()
+	text := strings.Join(st.lines, "\n") + "\n"
+	x.consWG.Add(1)
+	go func() {
+		defer x.consWG.Done()
+		consSem <- struct{}{}
+		defer func() { <-consSem }()
+		x.consMu.Lock()
+		done := cp.ok
+		x.consMu.Unlock()
+		if done {
+			return
+		}
+		r := solveText(header+text, 0, 2)
+		x.consMu.Lock()
+		if r != "unsat" {
+			cp.ok, cp.okScr = true, text
+		} else if cp.bad == "" {
+			cp.bad = text
+		}
+		x.consMu.Unlock()
+	}()
 }
 
 // emitConsistency turns the points into cover obligations: satisfied ones are recorded as covered, the others fail.
 func (x *Exec) emitConsistency(key string) {
+	x.consWG.Wait()
 	for _, name := range x.consOrder {
 		cp := x.cons[name]
 		ob := &Obligation{Func: key, Kind: "cover", Name: key + "/cover:" + name, Props: x.fc.Props, Src: cp.src, Expect: "sat"}
 		switch {
 		case cp.ok:
-			ob.Script, ob.Result, ob.Solver = cp.okScr, "sat", "z3-new(inline)"
+			ob.Script, ob.Result, ob.Solver = cp.okScr, "unknown", "z3-new-ematch(inline, not refutable)"
 		case cp.bad != "":
 			ob.Script = cp.bad
 		default:
@@ -330,6 +390,103 @@ func (x *Exec) assume(st *State, cond string) {
 		return
 	}
 	st.add("(assert " + cond + ")")
+	if strings.Contains(cond, "@p") {
+		x.aliasHeaps(st, cond)
+	}
+}
+
+// aliasHeaps: when an assumed formula has, as a top-level conjunct, the equality of the current (havocked) version of
+// a heap with an earlier version (a `heap-unchanged` clause of a callee or of a loop invariant), later terms are
+// built over the earlier symbol. This only substitutes equals for equals; it keeps frame proofs syntactic instead of
+// making the solver rewrite under array equalities.
+func (x *Exec) aliasHeaps(st *State, cond string) {
+	var walk func(t string)
+	walk = func(t string) {
+		t = strings.TrimSpace(t)
+		if strings.HasPrefix(t, "(and ") {
+			for _, c := range splitTop(t[5 : len(t)-1]) {
+				walk(c)
+			}
+			return
+		}
+		if !strings.HasPrefix(t, "(= |") {
+			return
+		}
+		parts := splitTop(t[3 : len(t)-1])
+		if len(parts) != 2 || !strings.HasPrefix(parts[0], "|") || !strings.HasPrefix(parts[1], "|") {
+			return
+		}
+		a, b := parts[0], parts[1]
+		ia, ib := strings.LastIndex(a, "@"), strings.LastIndex(b, "@")
+		if ia < 0 || ib < 0 || a[:ia] != b[:ib] || a == b {
+			return
+		}
+		name := a[1:ia]
+		cur, ok := st.heaps[name]
+		if !ok {
+			return
+		}
+		if strings.HasPrefix(cur, "?") {
+			cur = q(name + "@p" + cur[1:])
+		}
+		switch cur {
+		case a:
+			st.heaps[name] = b
+		case b:
+			// already the older one
+		}
+	}
+	walk(cond)
+}
+
+// splitTop splits a sequence of SMT terms at top level.
+func splitTop(s string) []string {
+	var out []string
+	depth, start, bar := 0, -1, false
+	for i := 0; i < len(s); i++ {
+		c := s[i]
+		if bar {
+			if c == '|' {
+				bar = false
+				if depth == 0 {
+					out = append(out, s[start:i+1])
+					start = -1
+				}
+			}
+			continue
+		}
+		switch {
+		case c == '|':
+			bar = true
+			if depth == 0 && start < 0 {
+				start = i
+			}
+		case c == '(':
+			if depth == 0 && start < 0 {
+				start = i
+			}
+			depth++
+		case c == ')':
+			depth--
+			if depth == 0 {
+				out = append(out, s[start:i+1])
+				start = -1
+			}
+		case c == ' ' || c == '\n' || c == '\t':
+			if depth == 0 && start >= 0 {
+				out = append(out, s[start:i])
+				start = -1
+			}
+		default:
+			if depth == 0 && start < 0 {
+				start = i
+			}
+		}
+	}
+	if start >= 0 {
+		out = append(out, s[start:])
+	}
+	return out
 }
 
 // ---- heaps ----
@@ -977,6 +1134,7 @@ func (x *Exec) enterBlock(st *State, b, pred *ssa.BasicBlock) bool {
 		x.bind(st, phi, incoming[i])
 		if phi.Comment != "" {
 			fr.locals[phi.Comment] = fr.vals[phi]
+			fr.locals[fmt.Sprintf("%s@%d", phi.Comment, ord)] = fr.vals[phi] // name@N: the variable of loop N (nested loops)
 		}
 	}
 	kind := "inv-entry"
@@ -1028,6 +1186,7 @@ func (x *Exec) enterBlock(st *State, b, pred *ssa.BasicBlock) bool {
 		fr.vals[phi] = v
 		if phi.Comment != "" {
 			fr.locals[phi.Comment] = v
+			fr.locals[fmt.Sprintf("%s@%d", phi.Comment, ord)] = v
 		}
 	}
 	if spec != nil {
@@ -1123,6 +1282,42 @@ func (x *Exec) emit(st *State, kind, name string, c Clause, goal string) {
 			return
 		}
 	}
+	if strings.HasPrefix(goal, "(forall ") {
+		// (forall B (and a b)) -> (forall B a), (forall B b); (forall B (=> p (and a b))) -> (forall B (=> p a)), ...
+		if sx, err := parseSX(goal); err == nil && len(sx.List) == 3 {
+			body := sx.List[2]
+			var parts []*SX
+			if body.Head() == "and" && len(body.List) > 2 {
+				parts = body.List[1:]
+			} else if body.Head() == "=>" && len(body.List) == 3 {
+				// peel a chain of implications: (=> p (=> q (and a b)))
+				var ants []*SX
+				cur := body
+				for cur.Head() == "=>" && len(cur.List) == 3 {
+					ants = append(ants, cur.List[1])
+					cur = cur.List[2]
+				}
+				if cur.Head() == "and" && len(cur.List) > 2 {
+					for _, p := range cur.List[1:] {
+						t := p
+						for k := len(ants) - 1; k >= 0; k-- {
+							t = list(atom("=>"), ants[k], t)
+						}
+						parts = append(parts, t)
+					}
+				}
+			}
+			if len(parts) > 0 {
+				for i, part := range parts {
+					if part.String() == "true" {
+						continue
+					}
+					x.emit(st, kind, fmt.Sprintf("%s#%d", name, i+1), c, "(forall "+sx.List[1].String()+" "+part.String()+")")
+				}
+				return
+			}
+		}
+	}
 	props := c.Props
 	if len(props) == 0 && x.fc != nil {
 		props = x.fc.Props
@@ -1171,11 +1366,13 @@ func (x *Exec) step(st *State) []*State {
 			prune := x.fc != nil && len(x.fc.Focus) > 0 && len(st.focused) > 0
 			s2 := st.clone()
 			x.assume(s2, "(not "+c.S+")")
-			if !(prune && !x.feasible(s2)) && x.enterBlock(s2, fb, fr.block) {
+			cur := fr.block
+			x.loopExitAsserts(s2, cur, fb)
+			if !(prune && !x.feasible(s2)) && x.enterBlock(s2, fb, cur) {
 				out = append(out, s2)
 			}
-			cur := fr.block
 			x.assume(st, c.S)
+			x.loopExitAsserts(st, cur, tb)
 			if !(prune && !x.feasible(st)) && x.enterBlock(st, tb, cur) {
 				out = append(out, st)
 			}
@@ -1220,6 +1417,48 @@ func (x *Exec) step(st *State) []*State {
 
 func (x *Exec) atPanic(st *State) {}
 
+// loopExitAsserts proves, then assumes, the contract's `assert at-exit:<N> <name> <sx>` clauses on the edge that
+// leaves loop N from its head (ghost asserts: what the finished loop established, stated once).
+func (x *Exec) loopExitAsserts(st *State, head, to *ssa.BasicBlock) {
+	if x.fc == nil || len(x.fc.Asserts) == 0 || len(st.stack) != 1 || x.frameMode {
+		return
+	}
+	ord, isHead := x.loops[head]
+	if !isHead || x.inLoop[head][to] || to == head {
+		return
+	}
+	l := fmt.Sprintf("at-exit:%d", ord)
+	cls := x.fc.Asserts[l]
+	if len(cls) == 0 {
+		return
+	}
+	if x.assertHit == nil {
+		x.assertHit = map[string]bool{}
+	}
+	fr := st.top()
+	for _, cl := range cls {
+		cl := cl
+		func() {
+			defer func() {
+				if r := recover(); r != nil {
+					if _, ok := r.(specError); ok {
+						return
+					}
+					panic(r)
+				}
+			}()
+			env := x.specEnv(st, fr, nil)
+			if snap := fr.loopSnap[ord]; snap != nil {
+				env.lheaps, env.lepoch, env.lnow, env.llocals = snap.heaps, snap.epoch, snap.now, snap.locals
+			}
+			t := x.evalBool(st, cl.SX, env)
+			x.assertHit[l+"/"+cl.Name] = true
+			x.emit(st, "assert", fmt.Sprintf("%s/assert:%s@exit-of-loop%d", x.funcKeyOf(x.fn), cl.Name, ord), cl, t)
+			x.assume(st, t)
+		}()
+	}
+}
+
 // feasible asks the solver whether the path condition is satisfiable (used to prune paths excluded by a focus).
 func (x *Exec) feasible(st *State) bool {
 	f, err := os.CreateTemp(scratchBase(), "feas*.smt2")
@@ -1229,7 +1468,7 @@ func (x *Exec) feasible(st *State) bool {
 	defer os.Remove(f.Name())
 	f.WriteString(x.header() + strings.Join(st.lines, "\n") + "\n(check-sat)\n")
 	f.Close()
-	r, _, _ := runSolver(solvers[0], f.Name(), 3)
+	r, _, _ := runSolver(solvers[1], f.Name(), 3)
 	x.pruned++
 	return r != "unsat"
 }
